@@ -14,6 +14,7 @@ macro("FINV1", ["c", "s"],
       " and fprog(c, s).shard._shard_writer.nrec == fprog(c, s).written_examples"
       " and not fprog(c, s).shard._shard_writer.closed"
       " and SHARD_OK(fprog(c, s).shard) and fprog(c, s).shard._dataset_path == c._dataset_root_path"
+      " and not isdisk(fprog(c, s).shard.shard_info)"
       # an open shard is not listed anywhere yet (its count still changes)
       " and forall(lambda t, i: implies(t in c._shards_lists and 0 <= i and i < len(c._shards_lists[t].shard_files),"
       "       c._shards_lists[t].shard_files[i] is not fprog(c, s).shard.shard_info), t='U')"
@@ -66,7 +67,7 @@ contract(MF, CTX + "._get_new_shard", props=["C10", "C11", "C18"],
         "result.shard_info.number_of_examples == 0",
         "result._shard_writer.nrec == 0 and not result._shard_writer.closed",
         "not truthy(result.shard_info.custom_metadata)",
-        "SHARD_OK(result) and result._dataset_path == self._dataset_root_path",
+        "SHARD_OK(result) and result._dataset_path == self._dataset_root_path and not isdisk(result.shard_info)",
     ],
     verify=False, assumed=True,
     note="constructor glue (Shard.__init__, get_shard_writer, pydantic ShardInfo/FileInfo); checked by the run-time contract in harness/c_filler.py")
